@@ -10,10 +10,12 @@
   arbitrary here) answer: under the stdout lock it takes what is left in the channel, closes the channel
   and prints `bestmove`.
 
-  Atomicity assumed (trusted base): a channel operation is atomic; the two critical sections are
-  exclusive (Rust's stdout lock, reentrant per thread); an improvement's send + print is taken as one
-  step also w.r.t. polls, which is sound for the output because a poll only moves a message from the
-  channel to `best_move` and prints nothing.
+  Granularity: each critical section is ONE step here (an improvement's send + print; the answer's
+  drain + close + print).  Model/HandoverFine.lean has the micro-steps and the lock itself, proves the
+  exclusion instead of assuming it, and makes exact the one thing this machine idealises: a PLAIN send
+  (not under the lock) can land between the drain and the close, so the bestmove carries the last
+  board sent before the drain, and anything that got through later is a plain send.
+  Trusted: a channel operation is atomic; `stdout().lock()` is a lock.
 -/
 namespace Walleye.Handover
 
